@@ -206,7 +206,7 @@ B_FIELDS = {
     "pretty_print": ([True], ["picosvg", "untouchedsvg"]),
     "use_pngquant": ([False], ["cbdt", "sbix"]),
     "use_zopflipng": ([False], ["cbdt", "sbix"]),
-    "pngquant_flags": (["--speed 10 --quality 40-60", "--speed 11 --posterize 2"], ["cbdt", "sbix"]),
+    "pngquant_flags": (["--speed 10 --quality 40-60", "--speed 11 --posterize 2", "--speed 11 --quality 100-100"], ["cbdt", "sbix"]),
     "ignore_reuse_error": ([False], ["glyf_colr_1", "picosvg"]),
     "glyphmap_generator": (["my_glyphmap"], ["glyf_colr_1", "glyf", "picosvg", "cbdt"]),
 }
@@ -273,6 +273,9 @@ def gen_single(seed, idx):
     for extra in r.sample(["upem", "ascender", "descender", "width", "family"], r.choice([0, 1, 2])):
         if extra != field:
             base[extra] = r.choice(gen.OPTION_VALUES[extra][1:])
+    # "flag wins" must also hold when the flag restates the documented default against a non-default file value
+    if r.random() < 0.3 and _default(field) is not None and field not in base and field not in ("bitmap_resolution", "glyphmap_generator", "pngquant_flags", "transform"):
+        value = _default(field)
     if field == "bitmap_resolution" and value == base.get("bitmap_resolution"):
         value = 48
     if base.get(field) == value:
@@ -487,7 +490,7 @@ def judge_single(case, res):
         shas.append(r["listing"].get(m["var"]["output_file"]))
     if len(shas) == 2 and shas[0] != shas[1]:
         out.append({"class": "delivery-routes-differ", "detail": {"part": "B", "field": m["field"], "mode": "+".join(m["modes"]), "value": m["value"], "fmt": m["fmt"], "warm": m["warm"]}})
-    if shas and METAMORPHIC_EFFECT.get(m["field"]) and m["fmt"] in ("glyf_colr_1", "glyf_colr_0", "glyf", "picosvg", "cff2_colr_1"):
+    if shas and METAMORPHIC_EFFECT.get(m["field"]) and m["value"] != _default(m["field"]) and m["fmt"] in ("glyf_colr_1", "glyf_colr_0", "glyf", "picosvg", "cff2_colr_1"):
         if shas[0] == lab["base"]["listing"].get(m["base"]["output_file"]):
             out.append({"class": "option-without-effect", "detail": {"part": "B", "field": m["field"], "mode": m["modes"][0], "value": m["value"], "fmt": m["fmt"]}})
     # dedupe by (class, oracle)
